@@ -213,7 +213,7 @@ impl<K: SerializableType + Hash + Eq, V: SerializableType> ComplexSerialize for 
     
     fn deserialize_with_version<I: DataInput>(input: &mut I, _version: u32) -> Result<Self> {
         let len = input.read_u32()? as usize;
-        let mut map = HashMap::with_capacity(len);
+        let mut map = HashMap::with_capacity(len.min(4096));
         
         for _ in 0..len {
             let key = K::deserialize(input)?;
@@ -240,7 +240,7 @@ impl<T: SerializableType + Hash + Eq> ComplexSerialize for HashSet<T> {
     
     fn deserialize_with_version<I: DataInput>(input: &mut I, _version: u32) -> Result<Self> {
         let len = input.read_u32()? as usize;
-        let mut set = HashSet::with_capacity(len);
+        let mut set = HashSet::with_capacity(len.min(4096));
         
         for _ in 0..len {
             set.insert(T::deserialize(input)?);
@@ -497,7 +497,7 @@ impl ComplexTypeSerializer {
         let mut input = crate::io::SliceDataInput::new(bytes);
         
         let count = input.read_u32()? as usize;
-        let mut values = Vec::with_capacity(count);
+        let mut values = Vec::with_capacity(count.min(4096));
         
         let version = if self.config.include_metadata && count > 0 {
             // Read type metadata once for the entire batch
